@@ -136,6 +136,7 @@ SOURCES = {
     'C07': ('acq', 'sim'),
     'C11': ('flatten', 'flatdir', 'sim'),
     'C03': ('hist', 'plothist', 'sim'),
+    'C08': ('kinds', 'export', 'sim'),
 }
 
 
@@ -185,7 +186,7 @@ def programs_for(pid, tier, seed):
       keep=lambda p: any(s['a'] == 'AddSub' for s in p) and p[-1]['a'] == 'AddOp' and p[-1]['link']['k'] == 'one')
     # (2d) every operation class in every position (first, implicit successor, explicit FB/JS/JE, referenced by a later
     #      operation), then copied by each route: explicit copy, nesting, unrolling
-    if 'kinds' in want:
+    if 'kinds' in want or 'export' in want:
         menu, _templates = kinds_menu()
         anchor = gen.leaf('Wait', [0], [[0, 'ALL']], ['fixed', 4])
         anchors = [anchor]
@@ -202,6 +203,11 @@ M_Init == /\\ heap = DoNewCircuit(DoAddOp(DoNewCircuit(<<>>, "n1", NoLink, <<"fi
           cap=2500 if quick else 30000,
           keep=lambda p: p[-1]['a'] in ('AddSub', 'CopyCirc', 'Apply') and any(s['a'] == 'AddOp' and s['m']['kind'] != 'Wait' for s in p)
           and sum(1 for s in p if s['a'] in ('AddSub', 'CopyCirc', 'Apply')) == 1)
+        # (2d') every operation class (supported and unsupported by the exporters), nested, repeated, unrolled: simulation
+        g('export', menu, reps=[('fixed', 1), ('fixed', 2), ('fixed', 3)], acts=('NewCircuit', 'AddOp', 'AddSub', 'Apply'), linktypes=('FB',),
+          max_circs=3, max_objs=14, max_steps=10, simulate='num=%d' % (14 if quick else 600), depth=11, min_emit=5, one_in=4,
+          cap=1500 if quick else 20000, timeout=150,
+          keep=lambda p: any(s['a'] == 'AddSub' for s in p))
     # (2e) nested repetition: depth 3, counts 1..3 at every level (fixed and registry-provided), applied twice
     g('unroll', [gen.leaf('Wait', [0], [[0, 'ALL']], ['fixed', 4]), gen.leaf('Wait', [1], [[1, 'ALL']], ['fixed', 12]),
                  gen.leaf('Rx180', [0], [[0, 'MICROWAVE']], ['global', 'MW'])],
@@ -342,6 +348,7 @@ NONTRIVIAL.update({
     'C07': lambda p: sum(1 for s in p if s['a'] == 'AddOp' and s['m']['kind'] == 'DispersiveMeasure') >= 2,
     'C11': lambda p: any(s['a'] == 'Flatten' for s in p) and any(s['a'] == 'AddSub' for s in p),
     'C03': lambda p: any(s['a'] == 'Obs' for s in p[:-1]),
+    'C08': lambda p: any(s['a'] == 'AddSub' for s in p) and sum(1 for s in p if s['a'] == 'AddOp') >= 2,
 })
 RULES = {
     'C01': '>= 2 additions (so at least one explicit or implicit relation is placed)',
@@ -352,6 +359,7 @@ RULES = {
     'C07': '>= 2 measurements',
     'C11': 'a nested program is flattened',
     'C03': 'at least one observation before the end of the history',
+    'C08': 'a nested block and >= 2 operations',
 }
 
 
